@@ -18,6 +18,8 @@ import numpy as np
 from vf.bounded import Suite
 from refsem import core as R
 from refsem import cgroup as G
+from refsem import cutrank as CR
+from refsem import c02_targets as T
 
 S = Suite("C02")
 
@@ -82,6 +84,14 @@ def build_target(inp):
         g = nx.Graph()
         g.add_nodes_from(inp.get("order") or list(range(n)))
         g.add_edges_from([tuple(e) for e in inp["edges"]])
+        return QuantumState(g, rep_type="g"), A
+    if rep in ("g_np_int", "g_np_float"):  # the same graph from an adjacency matrix: edges carry int / float 'weight' attributes
+        assert not inp.get("order")
+        g = nx.from_numpy_array(A.astype(int if rep == "g_np_int" else float))
+        return QuantumState(g, rep_type="g"), A
+    if rep == "g_edges":  # nx.Graph(edge list): no attributes, nodes inserted in order of first appearance (= inp["order"])
+        g = nx.Graph([tuple(e) for e in inp["edges"]])
+        assert list(g.nodes) == list(inp["order"]), "harness: order must be the order of first appearance in the edge list"
         return QuantumState(g, rep_type="g"), A
     if rep == "s":
         table, phase = _clifford_table(A, inp.get("M"))
@@ -190,9 +200,9 @@ S.item(
 
 
 # Targets on 7..9 vertices found by a seeded search (on the unchanged tree) for which the solver's time-reversed
-# measurement step meets a generator of sign -1 (it has to flip the emitter before the measure-and-reset).  On n <= 6
-# vertices this never happens, so these - and the seeded random graphs of the same sizes - are what exercises that
-# sign repair.  They are ordinary members of the property's domain ("every target graph state").
+# measurement step meets a generator of sign -1 (it has to flip the emitter before the measure-and-reset).  On n <= 5
+# vertices this never happens and on 6 vertices for 100 of the 27449 graphs (all of them are in solve.exact.six_vertices), so
+# these - and the seeded random graphs of the same sizes - are what exercises that sign repair.  They are ordinary members of the property's domain ("every target graph state").
 SIGNED_MEASUREMENT_TARGETS = [
     (7, [[0,2],[1,3],[1,5],[1,6],[2,3],[2,5],[2,6],[3,4],[3,5],[3,6]]),
     (7, [[0,1],[2,4],[2,5],[2,6],[3,5],[3,6],[4,6],[5,6]]),
@@ -224,6 +234,112 @@ S.item(
     "refsem state vector (up to 13 qubits) over every combination of measurement outcomes",
     clause="same contract as solve.exact on larger targets (emitter sign corrections before mid-circuit measurements)",
 )(solve_case)
+
+
+S.item(
+    "solve.exact.six_vertices",
+    site=SITE,
+    bound="fixed list, seed-independent (refsem/c02_targets.py): ALL 27449 labelled graphs without isolated vertex on 6 vertices leave "
+    "763 distinct leftover emitter states in 2430 distinct tableaux (the argument of the final inverse_circuit call, recorded on the "
+    "unchanged tree).  quick: for EVERY one of the 763 states one target, and a second one with a different tableau where there is "
+    "one (1346 targets; 1268 need 3 emitters); thorough: one target for every one of the 2430 tableaux; both tiers: + ALL 100 six-vertex "
+    "graphs whose time-reversed measurement meets a negative generator; graph input, numpy seed (graph number mod 3) for the solver's own compilation, stabilizer "
+    "compiler; refsem state vector over every combination of measurement outcomes",
+    exhaustive=True,
+    clause="same contract as solve.exact on targets that need 3 emitters (every final emitter-disentangling stage a 6-vertex target can reach)",
+)(solve_case)
+
+S.item(
+    "solve.exact.large_families",
+    site=SITE,
+    bound="fixed list, seed-independent: 249 graphs on 7..9 vertices (up to 4 emitters, out of reach of known finding C11-F1), one per "
+    "structural signature of the leftover emitter state (number of emitters, X rank, weights and signs of the Z-type subgroup basis, "
+    "negative X-type rows) found in 6000 random graphs (refsem/c02_targets.py); thorough: + 523 more (up to 4 per signature); "
+    "alternately given as graph / stabilizer QuantumState, stabilizer compiler; every combination of measurement outcomes",
+    clause="same contract as solve.exact on larger targets with >= 3 emitters (dense graphs, negative signs in the leftover emitter state)",
+)(solve_case)
+
+S.item(
+    "solve.exact.ten_plus",
+    site=SITE,
+    bound="fixed list, seed-independent: 14 graphs on 10..12 vertices with <= 3 emitters (paths, stars, cycles, a caterpillar, a "
+    "comb, a ladder, two disjoint stars, a relabelled path: register indices >= 10, i.e. two-digit register names), graph input, "
+    "stabilizer compiler; every combination of measurement outcomes (up to 15 qubits)",
+    clause="same contract as solve.exact on targets with >= 10 photons",
+)(solve_case)
+
+
+def _first_appearance(edges):
+    order = []
+    for e in edges:
+        for v in e:
+            if v not in order:
+                order.append(v)
+    return order
+
+
+@S.item(
+    "solve.input_construction",
+    site=SITE,
+    bound="all graphs without isolated vertex on n<=4 vertices (thorough n<=5) + the first 60 (thorough 249) of solve.exact.large_families, "
+    "each built as nx.from_numpy_array(int matrix), nx.from_numpy_array(float matrix) (edges carry 'weight' attributes) and "
+    "nx.Graph(edge list) with the edge list in a seeded shuffled order (nodes inserted in order of first appearance); stabilizer "
+    "compiler (n<=4 also density-matrix compiler)",
+    clause="every target graph state, however the networkx graph was constructed (the vertex order is the graph's own node order)",
+)
+def construction_case(inp):
+    return solve_case(inp)
+
+
+@S.item(
+    "solve.repeated_use",
+    site=SITE + " (several solvers sharing one compiler; solve() called twice; the same target object handed to a second solver)",
+    bound="sequences of 3 targets drawn (seeded) from the graphs without isolated vertex on 2..5 vertices such that consecutive targets have "
+    "different (photons, emitters) splits, 60 sequences (thorough 400), plus 6 fixed sequences with EQUAL totals and different splits "
+    "(e.g. C4: 4 photons + 2 emitters, P5 and S5: 5 + 1); one compiler instance (stabilizer / density matrix alternately) for the whole sequence; "
+    "after the sequence: solve() once more on the first solver, and a new solver on the first solver's (already used) target object",
+    clause="every call returns a valid circuit generating its own target with score 0 - also the 2nd, 3rd ... use of the same "
+    "compiler / solver / target objects",
+)
+def repeated_case(inp):
+    from graphiq.solvers.time_reversed_solver import TimeReversedSolver
+    from graphiq.metrics import Infidelity
+
+    comp = make_compiler(inp["comp"])
+    np.random.seed(inp.get("seed", 0))
+    made = []
+    for k, (n, edges) in enumerate(inp["targets"]):
+        case = {"n": n, "edges": edges, "rep": inp["reps"][k], "comp": inp["comp"]}
+        target, A = build_target(case)
+        solver = TimeReversedSolver(target=target, metric=Infidelity(target), compiler=comp)
+        solver.solve()
+        score, circuit = solver.result
+        made.append((solver, target, A))
+        circuit.validate()
+        bad = judge_all_outcomes(circuit, A)
+        if bad:
+            return f"target {k} of the sequence (shared compiler): {bad}"
+        if not np.isclose(score, 0.0):
+            return f"target {k} of the sequence (shared compiler): reported score {score!r}, true infidelity is 0"
+    solver, target, A = made[0]
+    solver.solve()  # the same solver object once more
+    score, circuit = solver.result
+    circuit.validate()
+    bad = judge_all_outcomes(circuit, A)
+    if bad:
+        return f"second solve() of the first solver: {bad}"
+    if not np.isclose(score, 0.0):
+        return f"second solve() of the first solver: reported score {score!r}, true infidelity is 0"
+    again = TimeReversedSolver(target=target, metric=Infidelity(target), compiler=make_compiler(inp["comp"]))
+    again.solve()  # a new solver on the target object the first solver has already used
+    score, circuit = again.result
+    circuit.validate()
+    bad = judge_all_outcomes(circuit, A)
+    if bad:
+        return f"new solver on the first solver's target object: {bad}"
+    if not np.isclose(score, 0.0):
+        return f"new solver on the first solver's target object: reported score {score!r}, true infidelity is 0"
+    return None
 
 
 @S.item(
@@ -297,6 +413,55 @@ def isolated_cases(tier):
     return out
 
 
+def _named(name):
+    """small named graphs as (n, edges)"""
+    kind, n = name[0], int(name[1:])
+    if kind == "P":
+        return n, [[i, i + 1] for i in range(n - 1)]
+    if kind == "C":
+        return n, [[i, (i + 1) % n] if i + 1 < n else [0, i] for i in range(n)]
+    if kind == "S":  # star with centre 0
+        return n, [[0, i] for i in range(1, n)]
+    if kind == "K":
+        return n, [[i, j] for i in range(n) for j in range(i + 1, n)]
+    raise ValueError(name)
+
+
+pool5_named = _named
+
+# sequences whose members have EQUAL register totals but different (photons, emitters) splits, e.g. C4 = 4+2, P5 = 5+1
+EQUAL_TOTAL_SEQUENCES = [("C4", "P5", "C4"), ("P5", "C4", "S5"), ("P3", "K3", "P3"), ("C5", "P5", "C4"), ("P2", "P3", "P2"), ("S4", "C4", "P4")]
+
+
+def ten_plus_cases():
+    """FIXED list of targets on 10..12 vertices that need at most 3 emitters (register indices >= 10)"""
+    out = []
+
+    def add(n, edges, order=None):
+        case = {"n": n, "edges": [sorted(e) for e in edges], "rep": "g", "comp": "stab"}
+        if order:
+            case["order"] = order
+        prof = CR.cut_rank_profile(_adj(case).tolist())
+        assert max(prof) <= 3 and n + max(prof) <= 15, (n, prof)
+        out.append(case)
+
+    for n in (10, 11, 12):
+        add(*_named(f"P{n}"))
+    add(*_named("S10"))
+    add(11, [[10, i] for i in range(10)])  # star whose centre is the LAST vertex (index 10)
+    add(*_named("C10"))
+    add(*_named("C12"))
+    add(10, [[i, i + 1] for i in range(0, 8, 2)] + [[i, i + 2] for i in range(0, 8, 2)])  # caterpillar: spine 0-2-4-6-8, leaves 1,3,5,7 (+9)
+    out[-1]["edges"].append([8, 9])
+    add(12, [[i, i + 2] for i in range(0, 10, 2)] + [[i, i + 1] for i in range(0, 12, 2)])  # comb
+    add(10, [[i, i + 1] for i in range(0, 10, 2)] + [[i, i + 2] for i in range(0, 8)])  # ladder 2 x 5, rung by rung
+    add(10, [[0, i] for i in range(1, 5)] + [[5, i] for i in range(6, 10)])  # two disjoint stars
+    add(11, [[i, i + 1] for i in range(10)], order=[1, 0, 3, 2, 5, 4, 7, 6, 9, 8, 10])  # path, neighbours swapped in the order
+    add(12, [[i, i + 1] for i in range(11)] + [[0, 11]], order=[11, 10] + list(range(10)))  # 12-ring, the two-digit labels first
+    add(10, [[i, j] for i in range(3) for j in range(3, 10)])  # K_{3,7}
+    return out
+
+
 def run(tier, seed):
     rng = np.random.default_rng(seed)
     thorough = tier == "thorough"
@@ -354,6 +519,41 @@ def run(tier, seed):
         for k in rng.choice(len(six), size=5000, replace=False):
             large.append({"n": 6, "edges": six[int(k)], "rep": "g", "comp": "stab"})
     S.map("solve.exact.large", large, nontrivial=nt, chunksize=2)
+
+    # ---- hardening: fixed lists chosen by structure (refsem/c02_targets.py), construction variants, repeated use
+    six = [{"n": 6, "edges": T.edges(6, i), "rep": "g", "comp": "stab", "seed": i % 3} for i in dict.fromkeys(T.SIX_VERTEX + T.SIX_VERTEX_SIGNED_MEASUREMENT + (T.SIX_VERTEX_MORE if thorough else []))]
+    S.map("solve.exact.six_vertices", six, nontrivial=nt, chunksize=8)
+    fam_src = T.LARGE_QUICK + (T.LARGE_MORE if thorough else [])
+    fams = [{"n": n, "edges": T.edges(n, i), "rep": "gs"[k % 2], "comp": "stab"} for k, (n, i) in enumerate(fam_src)]
+    S.map("solve.exact.large_families", fams, nontrivial=nt, chunksize=2)
+    S.map("solve.exact.ten_plus", ten_plus_cases(), nontrivial=nt, chunksize=1)
+
+    cons = []
+    small = [(n, e) for n in range(2, nmax + 1) for e in _graphs(n) if not _has_isolated(n, e)]
+    big = [(n, T.edges(n, i)) for n, i in T.LARGE_QUICK[: (249 if thorough else 60)]]
+    for k, (n, edges) in enumerate(small + big):
+        comps = ("stab", "dm") if n <= 4 else ("stab",)
+        for j, rep in enumerate(("g_np_int", "g_np_float")):
+            cons.append({"n": n, "edges": edges, "rep": rep, "comp": comps[(k + j) % len(comps)]})
+        sh = [list(e) if rng.random() < 0.5 else [e[1], e[0]] for e in (edges[int(i)] for i in rng.permutation(len(edges)))]
+        cons.append({"n": n, "edges": sh, "rep": "g_edges", "comp": comps[k % len(comps)], "order": _first_appearance(sh)})
+    S.map("solve.input_construction", cons, nontrivial=nt, chunksize=2)
+
+    pool5 = [(n, e) for n in range(2, 6) for e in _graphs(n) if not _has_isolated(n, e)]
+    split = lambda t: (t[0], max(CR.cut_rank_profile(_adj({"n": t[0], "edges": t[1]}).tolist())))  # noqa: E731  (photons, emitters)
+    seqs = [[pool5_named(x) for x in names] for names in EQUAL_TOTAL_SEQUENCES]
+    for _ in range(400 if thorough else 60):
+        while True:
+            seq = [pool5[int(i)] for i in rng.choice(len(pool5), size=3, replace=False)]
+            sp = [split(t) for t in seq]
+            if sp[0] != sp[1] and sp[1] != sp[2]:
+                break
+        seqs.append(seq)
+    rep_cases = []
+    for k, seq in enumerate(seqs):
+        rep_cases.append({"targets": [[n, e] for n, e in seq], "reps": [("g", "s", "dm")[(k + j) % 3] for j in range(len(seq))],
+                          "comp": ("stab", "dm")[k % 2], "seed": k % 3})
+    S.map("solve.repeated_use", rep_cases, chunksize=1)
     S.map("solve.vertex_order", orders, nontrivial=nt)
     S.map("solve.generating_set", gens, nontrivial=nt)
     S.map("result.real_backends", backends, nontrivial=nt)
